@@ -13,7 +13,7 @@ use nom::{
 };
 
 use super::{
-    common::{identifier, skip_ws, skip_ws_and_comments, value_reference},
+    common::{identifier, reserved_words, skip_ws, skip_ws_and_comments, value_reference},
     error::ParserResult,
     in_braces, into_inner,
     object_identifier::object_identifier_value,
@@ -177,7 +177,7 @@ fn environments(
                 _ => TaggingEnvironment::Implicit,
             },
         )),
-        skip_ws_and_comments(map(opt(tag(EXTENSIBILITY_IMPLIED)), |m| {
+        skip_ws_and_comments(map(opt(reserved_words(EXTENSIBILITY_IMPLIED)), |m| {
             if m.is_some() {
                 ExtensibilityEnvironment::Implied
             } else {
